@@ -19,6 +19,32 @@ pub fn in_claim(code: Code, v: u64) -> bool {
     }
 }
 
+/// The same codeword written over a vector that already holds non-zero words (a reused buffer): every
+/// word the codeword covers must be overwritten, zero words of a long unary part included.
+pub fn on_reused_vector(e: En, code: Code, wop: CodeOp, v: u64, ci: usize, rep: &mut Report) {
+    if code_len(code, v) > 24 * 8 - 8 {
+        return;
+    }
+    let w = WWord::ALL[ci % 5];
+    let mut h = make_writer(WCfg { e, w, be: WBackend::VecDirty });
+    let mut mb: Bits = vec![];
+    let pre = ci % 7;
+    push_bits(&mut mb, e, 0x55 & ((1u64 << pre) - 1), pre);
+    push_code(&mut mb, e, code, v);
+    let r0 = guard(|| h.w.write_bits(0x55 & ((1u64 << pre) - 1), pre));
+    let r1 = guard(|| h.w.write_code(wop, v));
+    let got = guard(|| h.w.into_bytes().unwrap());
+    let img = image(&mb, e, w.bytes());
+    rep.eval(1);
+    if !r0.is_ok() || r1 != Out::Ok(mb.len() - pre) || got != Out::Ok(img.clone()) {
+        rep.violation(
+            &format!("{}|{}|{}|on-reused-vector|{}", e.name(), w.name(), code.family(), if got.is_ok() { "bits" } else { "result" }),
+            || format!("{} of {} over a vector holding all-ones words ({} writer, {} bits before): returned {}, image {} but the definition gives {}", wop.name(), v, w.name(), pre, r1.show(), got.show(), crate::report::hex(&img)),
+            || format!("wrapper=reused e={} code={} wop={} value={} ci={}", e.name(), codeop_to_string(&CodeOp::Std(code)), codeop_to_string(&wop), v, ci),
+        );
+    }
+}
+
 pub fn through_wrapper(e: En, code: Code, wop: CodeOp, v: u64, ci: usize, rep: &mut Report) {
     let w = [WWord::U64, WWord::U16][ci % 2];
     let mut h = make_wrapped_writer(e, w, Wrap::Count);
@@ -103,6 +129,7 @@ pub fn run(ctx: &Ctx) -> Report {
                 // the format does not depend on how the writer is dressed: through the counting wrapper
                 // (whose write_bits / write_unary the table-free encoders go through) the bits are the same
                 through_wrapper(e, code, wms[(ci / 17) % wms.len()], v, ci, rep);
+                on_reused_vector(e, code, wms[(ci / 17) % wms.len()], v, ci, rep);
                 // the byte-level VByte writers must put the complete codeword into any std::io sink
                 if matches!(code, Code::VByteBe) && e == En::BE {
                     super::c18::check_hostile_io(v, ci, rep);
@@ -119,6 +146,10 @@ pub fn replay(case: &str, rep: &mut Report) {
     let kv = Kv::parse(case);
     if kv.opt("wrapper").is_some() {
         let code = parse_codeop(kv.get("code")).code();
+        if kv.get("wrapper") == "reused" {
+            on_reused_vector(parse_en(kv.get("e")), code, parse_codeop(kv.get("wop")), kv.u64("value"), kv.usize("ci"), rep);
+            return;
+        }
         through_wrapper(parse_en(kv.get("e")), code, parse_codeop(kv.get("wop")), kv.u64("value"), kv.usize("ci"), rep);
         return;
     }
